@@ -103,7 +103,9 @@ func runC13(c *Ctx) {
 			if op.Kind == "Write" {
 				continue
 			}
-			ok := op.Kind == "Del" && op.Key.Any(func(t *Term) bool { return t.Op == "call" && strings.HasSuffix(t.Sym, "KeyValue.Key") && t.Args[0].Any(IsCall("(*db.DB).Iterate").F) })
+			ok := op.Kind == "Del" && op.Key.Any(func(t *Term) bool {
+				return t.Op == "call" && strings.HasSuffix(t.Sym, "KeyValue.Key") && t.Args[0].Any(IsCall("(*db.DB).Iterate").F)
+			})
 			c.Require("C13.R2 cleartemp-temp-only", "ClearTempBlocks "+op.Kind, p.InstrPos(op.Call), "only deletes keys returned by the temp-family scan", ok, "key: "+op.Key.String())
 		}
 	}
